@@ -461,6 +461,17 @@ func (s sortedProperty) Len() int {
 // the extended types and without properties.
 func (t *TypeGenerator) allProperties() []Property {
 	p := t.properties
+	// A typeless type is one that withholds the JSON-LD "type" property,
+	// which is its own business: a typed type below it has a "type".
+	var typeKey string
+	var typeProp Property
+	if !t.typeless {
+		for k, v := range p {
+			if v.VocabName() == JSONLDVocabName && v.PropertyName() == JSONLDTypeName {
+				typeKey, typeProp = k, v
+			}
+		}
+	}
 	// Properties of parents that are extended, minus DoesNotApplyTo
 	var extends map[*TypeGenerator]string
 	extends = t.getAllParentExtends(extends, t)
@@ -476,6 +487,9 @@ func (t *TypeGenerator) allProperties() []Property {
 	}
 	for k := range t.WithoutProperties() {
 		delete(p, k)
+	}
+	if typeProp != nil {
+		p[typeKey] = typeProp
 	}
 	// Sort the properties into a stable order -- this is important for
 	// stability in comparisons such as LessThan in order to be able to
